@@ -40,6 +40,7 @@ static bool gen_c10(uint64_t seed, const std::string &tier, uint64_t i, Plan &p)
   conf.set("queuelifetime", 100);
   p.knobs.set("conf", conf);
   p.knobs.set("default_verdict", "K");
+  p.knobs.set("ctl_style", (long long)r.pick(std::vector<int64_t>{0, 0, 1, 1, 2}));
   auto rand_rcpt = [&]() -> std::string {
     int kind = (int)r.below(12); std::string box = r.pick(std::vector<std::string>{"joe", "info", "a.b", "x", "Joe", "u%a.example", "u%b.example%a.example", "a%b", "we@ird", "zed", "ZED", "u%ZONE.example"});
     std::string d = mixcase(r, r.pick(doms));
